@@ -64,7 +64,8 @@ func genC11(c *Ctx) {
 					base = append(base, tvF64(float64(10*(j+1))))
 				}
 			}
-			d = tvMap("str", [][2]any{{hx("ws"), tvWin(base, [2]int{0, 2}, [2]int{1, 3}, [2]int{2, 4}, [2]int{0, 6}, [2]int{4, 5})}, {hx("n"), tvF64(2)}})
+			d = tvMap("str", [][2]any{{hx("ws"), tvWin(base, [2]int{0, 2}, [2]int{1, 3}, [2]int{2, 4}, [2]int{0, 6}, [2]int{4, 5})}, {hx("n"), tvF64(2)},
+				{hx("gs"), tvWinKey("ids", base, [2]int{0, 2}, [2]int{3, 5}, [2]int{1, 3}, [2]int{4, 6})}})
 		}
 		data := buildAny(d)
 		copyData := buildAny(d)
@@ -87,8 +88,9 @@ func genC11(c *Ctx) {
 				q = aq[r.Intn(len(aq))]
 			}
 			if windows {
-				q = []string{`$.ws.Select("$")`, `$.ws.Select("@")`, "$.ws.First()", "$.ws.Last()", `$.ws.Select("$").Count()`, `$.ws[@.Count().Greater($.n)]`, `$.ws.Select("$.First()")`,
-					`$.ws.Index(1).Select("$")`, `$.ws.Select("$").Last()`, "$.ws.Index(3)"}[(j+i/10)%10]
+				q = []string{`$.gs.Select("$.ids")`, `$.gs.ids`, `$.gs.Select("$.ids").Count()`, `$.gs.Last().ids`, `$.gs[@.ids.Count().Greater(1)].ids`, `$.gs.Select("$.ids.First()")`,
+					`$.ws.Select("$")`, `$.ws.Select("@")`, "$.ws.First()", "$.ws.Last()", `$.ws.Select("$").Count()`, `$.ws[@.Count().Greater($.n)]`, `$.ws.Select("$.First()")`,
+					`$.ws.Index(1).Select("$")`, `$.ws.Select("$").Last()`, "$.ws.Index(3)"}[(j+i/10)%16]
 			}
 			if j == 5 && i%4 == 1 {
 				// a text argument with blanks around it, handed to a function that reads numbers
